@@ -29,7 +29,7 @@ RULE = (
 FAULT_KEYS = ["row_permute", "adversarial_choice", "shuffle", "exchange_accepted"]
 PROBE_KEYS = ["long_allele_traces", "long_locus_traces", "summaries_checked", "burn_values", "multi_genotype_logs", "mode_ties", "support_ties", "incongruence_checked", "incongruence_1", "incongruence_2",
               "incongruence_tie_skip", "as_array_checked", "ped_individuals", "chains_disagree", "cli_reports_checked", "cli_null_alleles"]
-OPTIONAL_PROBES = {"quick": (), "thorough": ()}
+OPTIONAL_PROBES = {"quick": ("cli_null_alleles",), "thorough": ()}
 COMPONENTS = {
     "real": ["mchap.assemble.classes.{GenotypeMultiTrace,PosteriorGenotypeDistribution,GenotypeSupportDistribution}", "mchap.calling.classes.{GenotypeAllelesMultiTrace,PosteriorGenotypeAllelesDistribution}",
              "mchap.pedigree.classes.PedigreeAllelesMultiTrace", "mchap.mset", "mchap.calling.utils.posterior_as_array", "the three samplers producing the traces (interpreted)",
